@@ -60,6 +60,7 @@ type mockThings struct {
 	outcomeCtx func(ctx *restli.RequestContext, method string) error
 	item       *vt.Item
 	batch      *things.BatchEntities
+	batchResp  *things.BatchResponse
 	elements   *things.Elements
 	createdID  string
 	pong       string
@@ -138,6 +139,9 @@ func (m *mockThings) BatchPartialUpdate(ctx *restli.RequestContext, entities map
 func (m *mockThings) BatchDelete(ctx *restli.RequestContext, keys []string) (*things.BatchResponse, error) {
 	m.ctx = ctx
 	err := m.rec(call{method: "batch_delete", keys: keys})
+	if m.batchResp != nil {
+		return m.batchResp, err
+	}
 	return &things.BatchResponse{Results: map[string]*common.BatchEntityUpdateResponse{}}, err
 }
 func (m *mockThings) FindBySearch(ctx *restli.RequestContext, p *things.FindBySearchParams) (*things.Elements, error) {
